@@ -195,3 +195,24 @@ theorem ket_prod (D : Option Int → List Nat → α) (hD : ∀ v, v < 2 → D (
 
 end
 end Qib.GateNet
+
+namespace Qib.GateNet
+open Qib.TNet
+
+theorem numOpen_of_virt (net : Net) (v : STensor) (h : dget net.tensors (-1) = some v) :
+    numOpenAxes net = .ok v.shape.length ∧ netShape net = .ok v.shape := by
+  simp [numOpenAxes, netShape, virt, h]
+
+theorem crossTensors_dataref (off : Int) (nc : Nat) (i : Nat) (cs : List Bool) (e : Int × STensor)
+    (he : e ∈ crossTensors off nc i cs) :
+    e.2.tid ≠ -1 ∧ e.2.shape = [2, 2, 2, 2] ∧ ∃ c ∈ cs, e.2.dataref = some (if c then 3 else 2) := by
+  induction cs generalizing i with
+  | nil => simp [crossTensors] at he
+  | cons c cs ih =>
+    simp only [crossTensors, List.mem_cons] at he
+    rcases he with rfl | he
+    · exact ⟨by simp only [Int.ofNat_eq_natCast]; omega, rfl, c, List.mem_cons_self, rfl⟩
+    · obtain ⟨h1, h2, c', hc', h3⟩ := ih (i + 1) he
+      exact ⟨h1, h2, c', List.mem_cons_of_mem _ hc', h3⟩
+
+end Qib.GateNet
